@@ -327,7 +327,7 @@ class Frac:
         n = n1.scale(a1 // g) + n2.scale(a2 // g)
         if n.is_zero():
             return Frac(Fraction(0), n, {})
-        return Frac(Fraction(g, L), n, dl)
+        return _cancel_vars(Frac(Fraction(g, L), n, dl))
 
     def __neg__(self):
         return Frac(-self.s, self.n, self.d)
@@ -375,7 +375,7 @@ class Frac:
             for k, (p, e) in d2.items():
                 cur = d.get(k)
                 d[k] = (p, e + (cur[1] if cur is not None else 0))
-        return Frac(s, n1 * n2, d)
+        return _cancel_vars(Frac(s, n1 * n2, d))
 
     def inv(self):
         if self.is_zero():
@@ -391,7 +391,15 @@ class Frac:
         s = 1 / (self.s * u)
         if pp.is_const():
             return Frac(s, num, {})
-        return Frac(s, num, {pp.key(): (pp, 1)})
+        if len(pp.t) == 1:
+            # a monomial: one single-variable factor per generator (lets _cancel_vars divide them out later)
+            ((m, _c),) = pp.t.items()
+            d = {}
+            for i, e in ring.mono_items(m):
+                g = ring.gen(i)
+                d[g.key()] = (g, e)
+            return _cancel_vars(Frac(s, num, d))
+        return _cancel_vars(Frac(s, num, {pp.key(): (pp, 1)}))
 
     def pow(self, k):
         if k < 0:
@@ -413,6 +421,43 @@ class Frac:
         for k, (p, e) in self.d.items():
             x /= p.evalf(vals) ** e
         return x
+
+
+def _cancel_vars(fr):
+    """divide out single-generator denominator factors g^e that occur in every numerator monomial"""
+    if not fr.d or not fr.n.t:
+        return fr
+    n = fr.n
+    d = None
+    for key, (p, e) in fr.d.items():
+        if len(p.t) != 1:
+            continue
+        ((m, c),) = p.t.items()
+        if c != 1 or m == 0 or (m & (m - 1)) != 0:
+            continue  # not a bare generator
+        sh = m.bit_length() - 1
+        if sh % BITS:
+            continue
+        lo = e
+        for mm in n.t:
+            x = (mm >> sh) & EMASK
+            if x < lo:
+                lo = x
+                if lo == 0:
+                    break
+        if lo == 0:
+            continue
+        sub = lo << sh
+        n = Poly(n.ring, {mm - sub: cc for mm, cc in n.t.items()}, n.mx)
+        if d is None:
+            d = dict(fr.d)
+        if e == lo:
+            del d[key]
+        else:
+            d[key] = (p, e - lo)
+    if d is None:
+        return fr
+    return Frac(fr.s, n, d)
 
 
 def lincomb(t, scale=Fraction(1), acc=None):
